@@ -139,20 +139,41 @@ JoinFamily ==
     \cup { JMk(nm, <<"task", "task", "task", "task", kj, "task">>, J6kIns, gran) : nm \in JNames2, kj \in Kinds, gran \in Grans }
     \cup { JMk(nm, <<"task", "analysis", "task", "task", "task", "regress", kj>>, J7Ins, gran) : nm \in JNames2, kj \in Kinds, gran \in Grans }
 
-(* quick: 5^3 reference structures x 3 feedback options on P1 (375) + kinds/packagings (44) + depth (43) + joins (108) *)
+(* same-named producers: the short names of algorithms, state vectors and values are free
+   text and need only be unique inside their package (disk.engine.out.x and
+   network.engine.out.x in Test/ae).  Two producers t0.e and t1.e with the same state
+   vectors and values, one consumer that takes input from both (each at one granularity, or
+   both at all three); the second producer may itself consume the first; the consumer is of
+   every kind, or is named e as well; with and without feedback references of the first
+   producer on the same-named values of the other two algorithms                         *)
+SameProf(kj, nmc) == << Alg("t0", "e", "task", S12, "s", <<"s", "w">>),
+                        Alg("t1", "e", "task", S12, "s", <<"s", "w">>),
+                        Alg("t2", nmc, kj, S12, "s", <<"s", "w">>) >>
+SameGrans == { {"alg"}, {"sv"}, {"val"} }
+SameFamily ==
+    UNION { LET prof == SameProf(c[1], c[2]) IN
+            { Mk(prof, r21, r[1], r[2], fb) :
+                r21 \in RefSets(prof[1], { {}, {"alg"} }),
+                r \in (RefSets(prof[1], SameGrans) \X RefSets(prof[2], SameGrans)) \cup (RefSets(prof[1], {Grans}) \X RefSets(prof[2], {Grans})),
+                fb \in { NoFb, << {Atom(prof[2], "val"), Atom(prof[3], "val")}, {}, {} >> } }
+          : c \in (Kinds \X {"c"}) \cup { <<"task", "e">> } }
+
+(* quick: 5^3 reference structures x 3 feedback options on P1 (375) + kinds/packagings (44) + depth (43) + joins (108) + same names (160) *)
 ProgramsQuick(dummy) ==
     Family(P1, QuickSubsets, { NoFb, << {Atom(P1[3], "val")}, {}, {} >>, << {Atom(P1[3], "sv")}, {Atom(P1[3], "val")}, {} >> })
     \cup KFamily(KindsFew, { <<"t0", "t1", "t2">> })
     \cup KFamily({ <<"task", "analysis", "regress">> }, Partitions)
     \cup DeepFamily
     \cup JoinFamily
-(* thorough: 8^3 x 5 on two profiles (5120) + 27 kind assignments x 5 packagings x 4 shapes (540) + depth (43) + joins (108) *)
+    \cup SameFamily
+(* thorough: 8^3 x 5 on two profiles (5120) + 27 kind assignments x 5 packagings x 4 shapes (540) + depth (43) + joins (108) + same names (160) *)
 ProgramsThorough(dummy) ==
     Family(P1, AllSubsets, FbOptions(P1))
     \cup Family(P2, AllSubsets, FbOptions(P2))
     \cup KFamily(Kinds3, Partitions)
     \cup DeepFamily
     \cup JoinFamily
+    \cup SameFamily
 (* (TLC evaluates every zero-arity definition at start-up: the families take a dummy argument) *)
 ProgramsOfTier == IF Tier = "thorough" THEN ProgramsThorough(0) ELSE ProgramsQuick(0)
 =============================================================================
